@@ -26,6 +26,18 @@ ER, EMR, ERM, REACH = "expected_rewards", "expected_rewards_min_reach", "expecte
 def arg_successor(k, t, field, sense):
     """Is t == state_list[<arg-sense successor of expected_rewards>].field ?  Returns (verdict, text)."""
     ct = k.canon_top(t)
+    if t[0] == "attr" and t[1][0] == "call" and t[1][1] in ("max", "min"):
+        kf = k.kfold(t)
+        if kf is not None and kf.kind == "ARG" and kf.of is not None:
+            if kf.term != SF(field):
+                return False, "carries `%s` of the arg successor, specification: %s" % (show(kf.term), field)
+            if kf.of.sense != sense or kf.of.term != SF(ER):
+                return False, "follows %s, specification: arg-%s of expected_rewards" % (kf.of.text(), sense)
+            if kf.source != SELF_NEXT or kf.filter != TRUE or not kf.whole:
+                return False, "arg fold is %s" % kf.text()
+            return True, kf.text()
+        if kf is not None and kf.kind == "EXT":
+            return False, "is the %s over all successors of `%s`, not the value at the arg-%s successor of expected_rewards" % (kf.sense, show(kf.term), sense)
     if ct[0] == "res":
         # the value itself is carried through the loop
         kf = k.kfold(ct)
